@@ -13,8 +13,13 @@ import (
 func (mp MayPanic) receiverNonNil(r *Run, m *FuncInfo, inScope map[string]bool) (bool, string) {
 	sites, good := 0, 0
 	bad := ""
+	if recvBusy[m] {
+		return false, "recursive receiver chain"
+	}
+	recvBusy[m] = true
+	defer delete(recvBusy, m)
 	for name := range inScope {
-		g := r.Fn(name)
+		g := r.W.Peek(name)
 		if g == nil {
 			continue
 		}
@@ -44,9 +49,16 @@ func (mp MayPanic) receiverNonNil(r *Run, m *FuncInfo, inScope map[string]bool) 
 				return true
 			}
 			o := c.Info.ObjectOf(id)
-			if _, ok := mp.NonNil[g.Name+":"+id.Name]; ok {
+			if _, ok := mp.nonNil(c, g.Name, o); ok {
 				good++
 				return true
+			}
+			if rv := g.Recv(); rv != nil && rv == o {
+				// the caller passes its own receiver on: decided at the caller's call sites
+				if ok, _ := mp.receiverNonNil(r, g, inScope); ok {
+					good++
+					return true
+				}
 			}
 			all := o != nil
 			for _, d := range c.DefsOf(o) {
@@ -79,3 +91,5 @@ func (mp MayPanic) receiverNonNil(r *Run, m *FuncInfo, inScope map[string]bool) 
 	}
 	return true, fmt.Sprintf("receiver: all %d call site(s) inside the analysed set pass the address of a value or a pointer shown non-nil there", good)
 }
+
+var recvBusy = map[*FuncInfo]bool{}
